@@ -1,4 +1,5 @@
 import itertools
+import unicodedata
 from abc import ABC, abstractmethod
 from collections.abc import Collection, Container, Iterable, Mapping, Set
 from dataclasses import dataclass
@@ -206,7 +207,8 @@ def compile_closure_with_globals_capturing(
     for name, value in namespace.items():
         value_literal = get_literal_expr(value)
         if value_literal is None:
-            global_name = f"g_{name}"
+            # the parser applies NFKC normalization to identifiers of the source, the key of globals must match it
+            global_name = unicodedata.normalize("NFKC", f"g_{name}")
             while global_name in taken_names:
                 global_name = f"g_{global_name}"
             taken_names.add(global_name)
